@@ -125,7 +125,7 @@ def run_impl(case):
                 r.error = True
         elif r.offset == 0x502 and 0 <= idx < n:
             if r.cmd is ECCmd.APWR:
-                state["eestart"][idx] = int(r.args[3])
+                state["eestart"][idx] = int(r.args[2])
                 r.result = ()
             elif r.args == ("H",):
                 r.result = (0,)
@@ -294,7 +294,7 @@ def gen(rng, lo, hi):
 def run(ctx):
     from ebpfcat.ethercat import EtherCat
     lo, hi = EtherCat.terminal_addr_range
-    cases = [gen(ctx.rng, lo, hi) for _ in range(ctx.n(2500, 60000))]
+    cases = [gen(ctx.rng, lo, hi) for _ in range(ctx.n(6000, 80000))]
     # small fixed family: every terminal unaddressed, all draws equal, FIFO and LIFO-ish schedules
     for n in (1, 2, 3, 4):
         for sched in ([0] * 200, [7] * 200, [1, 0] * 100):
